@@ -64,6 +64,9 @@ SPECTRAL_MOMENTS = (NAME_a1, NAME_b1, NAME_a2, NAME_b2)
 SPECTRAL_DIMS = (NAME_F, NAME_D)
 SPACE_TIME_DIMS = (NAME_T, NAME_LON, NAME_LAT)
 
+# np.trapz was removed in numpy 2.4 (renamed np.trapezoid in numpy 2.0)
+_trapezoid = getattr(np, "trapezoid", None) or np.trapz
+
 DatasetWrapperSelf = TypeVar("DatasetWrapperSelf", bound="DatasetWrapper")
 
 
@@ -780,7 +783,7 @@ class WaveSpectrum(DatasetWrapper):
         range = {NAME_F: self._range(fmin, fmax)}
 
         property = property.fillna(0)
-        return np.trapz(
+        return _trapezoid(
             property.isel(**range) * self.e.isel(**range),  # type: ignore
             self.frequency[range],
         ) / self.m0(fmin, fmax)
